@@ -29,6 +29,8 @@ func main() {
 		cmdReplicas(os.Args[2:])
 	case "genesis":
 		cmdGenesis(os.Args[2:])
+	case "abi":
+		cmdAbi(os.Args[2:])
 	case "connector":
 		world.SetAddrCfg()
 		cmdConnector(os.Args[2:])
